@@ -3,7 +3,6 @@ C02 — Total, should-total and diff follow the specification's evaluation rules
 Property theorems only (helper lemmas: KlogV/Lemmas/Totality.lean, KlogV/Lemmas/Eval.lean).
 -/
 import KlogV.Lemmas.Eval
-import KlogV.Props.GoSrc
 namespace KlogV.C02
 
 /-- A time denotes the minute `1440·shift + 60·hour + minute` relative to the record's midnight:
